@@ -99,6 +99,7 @@ impl Ctx {
 
     #[inline]
     pub fn eval(&mut self) {
+        PROGRESS.fetch_add(1, std::sync::atomic::Ordering::Relaxed);
         if !self.frozen {
             self.evaluations += 1;
         }
@@ -402,8 +403,34 @@ pub fn nthreads() -> usize {
 }
 
 /// Full check of one property at one tier. Returns the process exit code.
+/// evaluations started, over all threads (progress indicator for the watchdog)
+pub static PROGRESS: std::sync::atomic::AtomicU64 = std::sync::atomic::AtomicU64::new(0);
+
+/// A case that never returns (a busy loop in the code under test that does not even call the simulated transport, whose own
+/// livelock detector would turn it into a finding) must not hang the command: when no evaluation has started for a long
+/// time the run ends as INCONCLUSIVE (exit 2, never a violation).
+fn start_watchdog(prop_id: &'static str, tier: Tier) {
+    let limit = std::env::var("VERIF_WATCHDOG_S").ok().and_then(|s| s.parse::<u64>().ok()).unwrap_or(tier.pick(180, 900));
+    std::thread::spawn(move || {
+        let mut last = PROGRESS.load(std::sync::atomic::Ordering::Relaxed);
+        let mut since = Instant::now();
+        loop {
+            std::thread::sleep(std::time::Duration::from_secs(5));
+            let now = PROGRESS.load(std::sync::atomic::Ordering::Relaxed);
+            if now != last {
+                last = now;
+                since = Instant::now();
+            } else if since.elapsed().as_secs() >= limit {
+                println!("INCONCLUSIVE property={prop_id} watchdog: no case started or finished for {limit} s (a case does not return)");
+                std::process::exit(2);
+            }
+        }
+    });
+}
+
 pub fn run_check(prop: &'static PropDef, tier: Tier, seed: u64) -> i32 {
     let start = Instant::now();
+    start_watchdog(prop.id, tier);
     let mut total = Ctx::new(tier, seed);
     let mut violations = 0u32;
     let mut faults: Vec<String> = Vec::new();
